@@ -7,3 +7,4 @@ from contracts import selection  # noqa
 from contracts import context  # noqa
 from contracts import mailbox  # noqa
 from contracts import storage  # noqa
+from . import processor  # noqa
